@@ -747,6 +747,30 @@ func off[S any, F any](s *S, f *F) uintptr { return uintptr(unsafe.Pointer(f)) -
             self.w('\trt.GCHandover(%s, *new(%s), func(i int) any {\n\t\t%s\n\t}, func(v any, i int) bool {\n\t\t%s\n\t})' % (self.optic_lit('C01', st, e, get, put), T, mk, ck))
             self.case_end('C01/%s/%s' % (S, req), True)
 
+    def emit_prime(self, st, e):
+        """the struct types an entry is embedded through are first used as containers of their own (valid optics
+        for their own fields), in the same process, before the outer derivation is attempted"""
+        s = st
+        for name in e.path:
+            f = next(g for g in s.fields if g.name == name)
+            s = f.struct
+            subL = listing(s)
+            for se in subL[:2]:
+                if not se.crossing and ok_name(se.key()) and self.resolve_name(subL, se.key()) is se:
+                    self.w('\trt.Derive(func() {\n\t\t_ = optics.ForProduct1[%s, %s](%s)\n\t\t_ = optics.ForSpectrum1[%s, %s](%s)\n\t})' % (s.name, se.gotype(), q(se.key()), s.name, se.gotype(), q(se.key())))
+
+    def emit_prime_all(self, st, seen=None):
+        seen = seen if seen is not None else set()
+        for f in st.fields:
+            if f.embedded and f.struct is not None and f.struct.name not in seen:
+                seen.add(f.struct.name)
+                s = f.struct
+                subL = listing(s)
+                for se in subL[:2]:
+                    if not se.crossing and ok_name(se.key()) and self.resolve_name(subL, se.key()) is se:
+                        self.w('\trt.Derive(func() {\n\t\t_ = optics.ForProduct1[%s, %s](%s)\n\t\t_ = optics.ForSpectrum1[%s, %s](%s)\n\t})' % (s.name, se.gotype(), q(se.key()), s.name, se.gotype(), q(se.key())))
+                self.emit_prime_all(s, seen)
+
     def gen_by_entry(self, st, L):
         """NewLens / NewReflector applied to the i-th entry of the unfolding focus that very entry — also for
         shadowed entries (same key as an earlier one) that no by-name request can reach"""
@@ -773,6 +797,7 @@ func off[S any, F any](s *S, f *F) uintptr { return uintptr(unsafe.Pointer(f)) -
             T = e.gotype()
             req = 'NewLens[%s, %s](hseq.New[%s]()[%d])' % (S, T.replace('\n', ' '), S, i)
             self.case_begin('C02', 'by-entry/must-fail', st, req, 'panic: entry %s is reached through an embedded pointer' % e.sel())
+            self.emit_prime(st, e)
             self.w('\tif pn, _ := rt.Derive(func() { _ = optics.NewLens[%s, %s](hseq.New[%s]()[%d]) }); !pn {\n\t\trt.Accepted("C02", c, "entry is reached through an embedded pointer")\n\t}' % (S, T, S, i))
             self.w('\tif pn, _ := rt.Derive(func() { _ = optics.NewReflector[%s, %s](hseq.New[%s]()[%d]) }); !pn {\n\t\trt.Accepted("C02", c, "entry is reached through an embedded pointer (reflector)")\n\t}' % (S, T, S, i))
             self.case_end('C02/%s/%s' % (S, req), True)
@@ -862,6 +887,8 @@ func off[S any, F any](s *S, f *F) uintptr { return uintptr(unsafe.Pointer(f)) -
                 args = ', '.join(q(n) for n in names) if names else ''
                 req = '%s%d[%s](%s)' % (fam, K, targs.replace('\n', ' '), args)
                 self.case_begin('C02', '%s/must-fail' % fam, st, req, 'panic: ' + detail)
+                if 'embedded pointer' in detail:
+                    self.emit_prime_all(st)
                 self.emit_must_fail(st, L, fam, K, tys, names, targs, args, detail)
                 self.case_end('C02/%s/%s' % (S, req), True)
         # container type parameter that is not a struct
@@ -975,7 +1002,9 @@ func off[S any, F any](s *S, f *F) uintptr { return uintptr(unsafe.Pointer(f)) -
         for sub, path, chain, outerp in joins(st, None, [], 1):
             subL = listing(sub)
             leafs = [e for e in subL if not e.crossing and ok_name(e.key()) and self.resolve_name(subL, e.key()) is e]
-            for e in leafs[:3]:
+            # inner foci: the first direct fields and some promoted from structs embedded further inside the intermediate
+            promoted = [e for e in leafs if e.path]
+            for e in leafs[:3] + [e for e in promoted if e not in leafs[:3]][:2]:
                 T = e.gotype()
                 # build Join(Join(l1, l2), l3)...
                 expr = 'optics.ForProduct1[%s, %s](%s)' % (chain[0][0], chain[0][1], q(chain[0][2]))
